@@ -81,6 +81,34 @@ BREAKING = [
                                                        "        r = torch.sqrt(x**2 + y**2 + b**2) - b\n        if x.requires_grad or y.requires_grad:\n            dx = x/r\n            dy = y/r")]),
 ]
 
+
+
+def _perturb(key, idx, delta):
+    def f(d, np):
+        a = d[key].copy()
+        a.ravel()[idx] += delta
+        d[key] = a
+        return d
+    return f
+
+
+def _swap(k1, k2):
+    def f(d, np):
+        d[k1], d[k2] = d[k2].copy(), d[k1].copy()
+        return d
+    return f
+
+
+def _resave(d, np):
+    return {k: np.ascontiguousarray(v) for k, v in d.items()}
+
+
+BREAKING += [
+    ('table-tap-perturbed', ['C18'], [('npz', 'dtcwt/data/qshift_a.npz', _perturb('h0a', 2, 1e-6))]),
+    ('table-trees-exchanged', ['C18'], [('npz', 'dtcwt/data/qshift_c.npz', _swap('h1a', 'h1b'))]),
+    ('level1-table-asymmetric', ['C18'], [('npz', 'dtcwt/data/legall.npz', _perturb('h0o', 0, 1e-4))]),
+]
+
 NEUTRAL = [
     ('rename-locals-afb1d', ['C01', 'C05', 'C07'], [(LL, "    L = h0.numel()\n    L2 = L // 2\n    shape = [1,1,1,1]\n    shape[d] = L\n    # If h aren't in the right shape, make them so\n    if h0.shape != tuple(shape):\n        h0 = h0.reshape(*shape)\n    if h1.shape != tuple(shape):\n        h1 = h1.reshape(*shape)\n    h = torch.cat([h0, h1] * C, dim=0)\n\n    if mode == 'per' or mode == 'periodization':\n        if x.shape[dim] % 2 == 1:\n            if d == 2:\n                x = torch.cat((x, x[:,:,-1:]), dim=2)\n            else:\n                x = torch.cat((x, x[:,:,:,-1:]), dim=3)\n            N += 1\n        x = roll(x, -L2, dim=d)",
                                                           "    L = h0.numel()\n    half = L // 2\n    L2 = half\n    shp = [1,1,1,1]\n    shp[d] = L\n    # If h aren't in the right shape, make them so\n    if h0.shape != tuple(shp):\n        h0 = h0.reshape(*shp)\n    if h1.shape != tuple(shp):\n        h1 = h1.reshape(*shp)\n    h = torch.cat([h0, h1] * C, dim=0)\n\n    if mode == 'per' or mode == 'periodization':\n        if x.shape[dim] % 2 == 1:\n            if d == 2:\n                x = torch.cat((x, x[:,:,-1:]), dim=2)\n            else:\n                x = torch.cat((x, x[:,:,:,-1:]), dim=3)\n            N += 1\n        x = roll(x, -half, dim=d)")]),
@@ -101,6 +129,7 @@ NEUTRAL = [
     ('afb2d-backward-crop-as-two-ifs', ['C05'], [(LL, "            if dx.shape[-2] > ctx.shape[-2] and dx.shape[-1] > ctx.shape[-1]:\n                dx = dx[:,:,:ctx.shape[-2], :ctx.shape[-1]]\n            elif dx.shape[-2] > ctx.shape[-2]:\n                dx = dx[:,:,:ctx.shape[-2]]\n            elif dx.shape[-1] > ctx.shape[-1]:\n                dx = dx[:,:,:,:ctx.shape[-1]]",
                                                      "            if dx.shape[-2] > ctx.shape[-2]:\n                dx = dx[:,:,:ctx.shape[-2]]\n            if dx.shape[-1] > ctx.shape[-1]:\n                dx = dx[:,:,:,:ctx.shape[-1]]")]),
     ('skip-list-by-comprehension', ['C12', 'C03'], [(D2, "        highs = [x.new_zeros([]),] * self.J\n", "        highs = [x.new_zeros([]) for _ in range(self.J)]\n")]),
+    ('table-file-rewritten', ['C18', 'C03'], [('npz', 'dtcwt/data/near_sym_a.npz', _resave)]),
     ('pad-helper-extracted', ['C01', 'C19'], [(LL, "    if mode == 'symmetric':\n        # Vertical only\n        if pad[0] == 0 and pad[1] == 0:\n            m1, m2 = pad[2], pad[3]\n            l = x.shape[-2]\n            xe = reflect(np.arange(-m1, l+m2, dtype='int32'), -0.5, l-0.5)\n            return x[:,:,xe]",
                                                   "    def _sym_index(l, m1, m2):\n        return reflect(np.arange(-m1, l+m2, dtype='int32'), -0.5, l-0.5)\n    if mode == 'symmetric':\n        # Vertical only\n        if pad[0] == 0 and pad[1] == 0:\n            xe = _sym_index(x.shape[-2], pad[2], pad[3])\n            return x[:,:,xe]")]),
 ]
